@@ -131,14 +131,21 @@ class _E:
         self.shape, self.fill, self.groups = P.shapes[0], P.fill, P.groups
 
 
-def same_as_static(inst, static, glyphs, ctx):
-    """The instance must be the static build: advance, clip box, layers (count, placement, fill)."""
+def same_as_static(inst, static, glyphs, ctx, curves=False, q=1):
+    """The instance must be the static build: advance, clip box, layers (count, placement, fill).  Outlines may differ by
+    the curve-conversion error: a variable build converts cubics to quadratics jointly for all masters, a static build
+    alone, each within ufo2ft's 0.001 em of the true curve."""
     problems = []
+    if "COLR" not in inst or "COLR" not in static:
+        if ("COLR" in inst) != ("COLR" in static):
+            problems.append(f"{ctx}COLR table present in {'the variable font' if 'COLR' in inst else 'the static build'} only")
+        return problems
+    tol = 1.6 + (0.002 * inst["head"].unitsPerEm if curves else 0.0)
     for g in glyphs:
         if inst["hmtx"][g][0] != static["hmtx"][g][0]:
             problems.append(f"{ctx}{g}: advance {inst['hmtx'][g][0]} != static {static['hmtx'][g][0]}")
         ci, cs = varfont.clip_box(inst, g), varfont.clip_box(static, g)
-        if (ci is None) != (cs is None) or (ci and max(abs(x - y) for x, y in zip(ci, cs)) > 1):
+        if (ci is None) != (cs is None) or (ci and max(abs(x - y) for x, y in zip(ci, cs)) > 1 + ((tol - 1.6) + q if curves else 0)):   # a sub-unit outline difference can move a quantised edge by one step
             problems.append(f"{ctx}{g}: clip box {ci} != static {cs}")
         li, ls = oracle_cmp.colr_layers(inst, g), oracle_cmp.colr_layers(static, g)
         if len(li) != len(ls):
@@ -146,10 +153,10 @@ def same_as_static(inst, static, glyphs, ctx):
             continue
         for k, (a, b) in enumerate(zip(li, ls)):
             ba, bb = (a.shapes[0].bounds if a.shapes else None), (b.shapes[0].bounds if b.shapes else None)
-            if (ba is None) != (bb is None) or (ba and max(abs(x - y) for x, y in zip(ba, bb)) > 1.6):
+            if (ba is None) != (bb is None) or (ba and max(abs(x - y) for x, y in zip(ba, bb)) > tol):
                 problems.append(f"{ctx}{g} layer {k}: placed at {_r(ba)} != static {_r(bb)}")
         if not problems and all(len(b.shapes) == 1 for b in ls):
-            problems += oracle_cmp.compare([_E(b) for b in ls], li, 1.6, grid=14, ctx=f"{ctx}{g}: ")
+            problems += oracle_cmp.compare([_E(b) for b in ls], li, tol, grid=14, ctx=f"{ctx}{g}: ")
     return problems
 
 
@@ -332,7 +339,15 @@ def random_master_set(r):
             for cls, fill, op, base in specs:
                 pert = (r.uniform(0.7, 1.3), 0, 0, r.uniform(0.7, 1.3), r.uniform(-10, 10), r.uniform(-10, 10))
                 place = G.mul(pert, base)
-                place = (place[0], place[1], place[2], place[3], place[4] + 30, place[5] + 30) if abs(place[4]) < 20 else place
+                # keep the artwork inside the viewBox (an empty glyph is not a colour glyph at all)
+                bx, by, bw, bh = S.bbox_of(cls, place)
+                vb = vbs[m[0]]
+                k_fit = min(1.0, 0.8 * vb[2] / max(bw, 1e-6), 0.8 * vb[3] / max(bh, 1e-6))
+                place = (place[0] * k_fit, place[1] * k_fit, place[2] * k_fit, place[3] * k_fit, place[4], place[5])
+                bx, by, bw, bh = S.bbox_of(cls, place)
+                dx = max(vb[0] + 3 - bx, 0) + min(vb[0] + vb[2] - 3 - (bx + bw), 0)
+                dy = max(vb[1] + 3 - by, 0) + min(vb[1] + vb[3] - 3 - (by + bh), 0)
+                place = (place[0], place[1], place[2], place[3], place[4] + dx, place[5] + dy)
                 layers.append(S.LayerSpec(cls, place, fill, op))
             sources[m[0]][g + ".svg"] = S.svg_document(layers, vbs[m[0]])
     return axes, masters, sources, options, names
@@ -357,7 +372,8 @@ def check_random(chk, B, k):
             raise MachineryError(f"static build of a random master failed: {slog[-600:]}")
         st = common_font(sdata)
         inst, _ = varfont.instantiate(data, m[2], rounded=True)
-        for p in same_as_static(inst, st, names, ctx + f"at {m[2]}: ")[:3]:
+        q = options.get("clipbox_quantization") or round(0.02 * options["upem"])
+        for p in same_as_static(inst, st, names, ctx + f"at {m[2]}: ", curves=True, q=q)[:3]:
             chk.violation(p, dict(rp, master=m[0]))
     # containment along every axis
     for a in vf_font["fvar"].axes:
